@@ -1548,13 +1548,20 @@ func (w *world) concurrentReload(n, reps int) {
 
 func runC08(c *Ctx) {
 	im := NewImpl("C08", c.Seed, c.Tier)
-	im.Rule = "sessions on the real daemon: (1) systematic product command x field x {absent, null, bool, number, string, arrays, object} plus value sets for unit IDs (indexed, disk-only, foreign path, path characters, absent), nodes, work types, ttl, options, spellings; raw JSON shapes; plain-text forms; parameters at their bounds: every registered command word x a pool of blank/tab/leading/trailing/too-many parameter strings in plain and JSON form, unit IDs {known, unknown, empty, blanks} for every unit command, `work results` start positions {-1, 0, size-1, size, size+1, 2^31-1, 2^31, 2^63-1, 2^63, 1e30, non-numbers} in both forms against finished and running units with empty and non-empty stdout (stream read to its end and compared with the file); (2) random byte streams of 1-5 lines with CR/LF/'{' sprinkled in; (3) mixed multi-command sessions, half of them ending in an unterminated line + half-close; (4) abrupt disconnects at 8 points, 1 MiB lines of 5 kinds, N concurrent sessions, concurrent reloads, work list/status on two sessions against release of units with large directories on two others (oracle only); non-trivial = at least one non-empty request line; distinct by full input"
+	im.Rule = "sessions on the real daemon: (1) systematic product command x field x {absent, null, bool, number, string, arrays, object} plus value sets for unit IDs (indexed, disk-only, foreign path, path characters, absent), nodes, work types, ttl, options, spellings; raw JSON shapes; plain-text forms; parameters at their bounds: every registered command word x a pool of blank/tab/leading/trailing/too-many parameter strings in plain and JSON form, unit IDs {known, unknown, empty, blanks} for every unit command, `work results` start positions {-1, 0, size-1, size, size+1, 2^31-1, 2^31, 2^63-1, 2^63, 1e30, non-numbers} in both forms against finished and running units with empty and non-empty stdout (stream read to its end and compared with the file); (2) random byte streams of 1-5 lines with CR/LF/'{' sprinkled in; (3) mixed multi-command sessions, half of them ending in an unterminated line + half-close; (4) abrupt disconnects at 8 points, 1 MiB lines of 5 kinds, N concurrent sessions, concurrent reloads, work list/status on two sessions against release of units with large directories on two others (oracle only); (5) long-lived sessions: one session per kind of listener (unix, TCP, TCP+TLS, mesh stream, mesh stream+TLS) opened at the start of the run and used every 3-4 s (a valid command and a line that is not a valid command, both drawn from pools) until it is at least 14 s (thorough 45 s) old, in the background beside the other phases: every request answered within 5 s with the right class (JSON object / ERROR line), the session open at the end, a fresh session of the same kind answered afterwards; a failed session is repeated from scratch before it is reported; the reply classes go to the model as one session; non-trivial = at least one non-empty request line; distinct by full input"
 	cf := &CaseFile{Dir: c.Out, Prop: "C08", Imports: []string{"Model.Ctl"}, CaseType: "ctl_case", CheckFn: "ctl_check", PerShard: 130}
 	if c.Bin == "" {
 		Must(fmt.Errorf("VERIF_BIN not set"))
 	}
 	w := setup(c, im, cf)
 	defer w.teardown()
+	if os.Getenv("VERIF_C08_PHASE") == "long" {
+		// development aid: only the long-lived sessions
+		w.joinLong(w.startLong())
+		Must(cf.Write())
+		Must(im.Write(c.Out))
+		return
+	}
 	if os.Getenv("VERIF_C08_PHASE") == "list-vs-release" {
 		// development aid: only the lock-order phase
 		for i := 0; i < 3; i++ {
@@ -1564,6 +1571,8 @@ func runC08(c *Ctx) {
 		Must(im.Write(c.Out))
 		return
 	}
+	// long-lived sessions on every kind of listener run beside everything below (long.go)
+	long := w.startLong()
 	// corpus first: the historical crash, wedge and path escape (corpus/C08/*.json; concurrent
 	// reload is replayed by concurrentReload below)
 	w.runCorpus()
@@ -1616,6 +1625,7 @@ func runC08(c *Ctx) {
 		w.concurrentReload(8, 25)
 		w.listVsRelease(16, 1500)
 	}
+	w.joinLong(long)
 	if w.fatal != "" && w.restarts < maxRestarts {
 		im.Violate("harness could not go on: "+w.fatal, "harness-stuck", nil)
 	}
